@@ -154,7 +154,7 @@ def plan(tier, seed):
         for spec in ("HNM", "HLM"):
             for i in range(shards):
                 tasks.append({"engine": "enum", "n": n, "spec": spec, "index": i, "count": shards, "pairs": n <= 2 or (n == 3 and tier == "thorough"), "maxlen": None if n <= 3 else 3, "routes": None if n <= 3 else ["parent", "detour"]})
-    examples = 40 if tier == "quick" else 500
+    examples = 80 if tier == "quick" else 500
     for i in range(nshards):
         tasks.append({"engine": "hyp", "examples": examples, "seed": seed * 1000 + i})
     return tasks
